@@ -36,6 +36,7 @@ fn generate(rng: &mut Rng) -> C17Sc {
         // some clients dawdle so that they are mid-login when the stop arrives
         spec.ack_delay_ns = *rng.pick(&[0u64, 0, secs(1), secs(4)]);
         spec.info_delay_ns = *rng.pick(&[0u64, 0, secs(2), secs(7)]);
+        spec.ping_delay_ns = *rng.pick(&[0u64, 0, ms(700), secs(3)]);
         if rng.chance(1, 8) {
             spec.mute_after = Some(rng.range(0, 3) as usize); // goes silent: bounded by the timeout
         }
@@ -100,6 +101,7 @@ fn generate(rng: &mut Rng) -> C17Sc {
     let services = Services {
         filter: Script::always(Some(*rng.pick(&[0u64, ms(300)])), if crash { crate::services::FiltRes::PanicIfUser { name: "Crash".into() } } else { crate::services::FiltRes::Identity }),
         auth: Script::always(Some(*rng.pick(&[0u64, 0, secs(1)])), AuthRes::Claim),
+        status: Script::always(Some(*rng.pick(&[0u64, 0, 0, ms(900), secs(4)])), crate::services::StatusRes::Minimal),
         discovery: Script::always(Some(*rng.pick(&[0u64, secs(1), secs(5), secs(17)])), DiscRes::Targets(vec![TargetSpec { id: "t0".into(), addr: "10.9.8.7:25565".into(), meta: Default::default() }])),
         ..Default::default()
     };
@@ -110,7 +112,7 @@ fn generate(rng: &mut Rng) -> C17Sc {
             seed: rng.next_u64(),
             // a third of the runs go through the application entry point: passage::start(config), stopped
             // by the (simulated) interrupt signal it listens for
-            cfg: NetCfg { secret: None, expiry: None, max_frame: None, timeout_ns: secs(timeout_s), proxy, limiter: None, use_start, agones: use_start && rng.chance(1, 3), secret_source: None },
+            cfg: NetCfg { secret: None, expiry: None, max_frame: None, timeout_ns: secs(timeout_s), proxy, limiter: None, use_start, agones: use_start && rng.chance(1, 3), secret_source: None, localization_from_services: false },
             wall: Default::default(),
             services,
             clients,
